@@ -48,6 +48,10 @@ idx_t dtw_best_path{{suffix}}{{suffix2}}(seq_t *wps, idx_t *i1, idx_t *i2, idx_t
                     {%- endif %}
                     DTWSettings *settings) {
     DTWWps p = dtw_wps_parts(l1, l2, settings);
+    {%- if "affinity" in suffix %}
+    // Affinities are not squared: the penalty applies as given (dtw_wps_parts squares it for DTW).
+    p.penalty = settings->penalty;
+    {%- endif %}
 
     idx_t i = 0;
     {%- if ("affinity" in suffix) or ("customstart" in suffix) %}
